@@ -115,8 +115,20 @@ impl Prop for C20 {
             // the same LPs with the objective, or one row, in other units: a shadow price is a rate of
             // change, so it scales with the objective and inversely with the row (powers of two keep
             // the data exact)
-            .prop_flat_map(|c| (Just(c), 0u8..8, any::<u16>()))
-            .prop_map(|(mut c, mode, pick)| {
+            .prop_flat_map(|c| (Just(c), 0u8..8, any::<u16>(), 0u8..4, any::<u16>()))
+            .prop_map(|(mut c, mode, pick, parallel, pick2)| {
+                // two rows with the same coefficients and relation and different right-hand sides: the
+                // looser one is not binding, its price is 0 whatever the tighter one reports
+                if parallel == 0 && c.rows.len() >= 2 {
+                    let i = pick2 as usize % c.rows.len();
+                    let j = (i + 1 + (pick2 as usize >> 8) % (c.rows.len() - 1)) % c.rows.len();
+                    if c.rows[i].rel != R::Eq {
+                        let delta = 1.0 + (pick2 >> 12) as f64 % 3.0;
+                        let looser = if c.rows[i].rel == R::Le { c.rows[i].rhs + delta } else { c.rows[i].rhs - delta };
+                        let name = c.rows[j].name.clone();
+                        c.rows[j] = LinRow { name, coef: c.rows[i].coef.clone(), rel: c.rows[i].rel, rhs: looser };
+                    }
+                }
                 match mode {
                     0 => c.obj.iter_mut().for_each(|v| *v *= 128.0),
                     1 => c.obj.iter_mut().for_each(|v| *v *= 4096.0),
